@@ -22,7 +22,7 @@ ASSUMPTIONS = [
     "cron recurrence not exercised (croniter absent); recurrence via deferred_by",
 ]
 EVAL_COUNTER = "deliveries_judged"
-REQUIRED = ["deliveries_judged", "exp_ack", "exp_nack", "exp_retry", "exp_reschedule", "exp_eager", "sentinels_acked"]
+REQUIRED = ["deliveries_judged", "exp_ack", "exp_nack", "exp_retry", "exp_reschedule", "exp_eager", "sentinels_acked", "cells_with_unencodable_return"]
 CASE_TIMEOUT = 120
 
 EAGER = ("ack", "nack", "reject", "retry", "force_retry", "reschedule")
@@ -33,6 +33,8 @@ PERIOD = 3.0
 
 def all_cells():
     outs = ["ok"] + [f"raise:{e}" for e in FAIL_EXC] + ["timeout", "badpayload", "depfail"]
+    # the actor returns normally, but a value its converter cannot encode: a failed execution like any other
+    outs += [f"badret:{w}" for w in ("set", "bytes", "object", "tuple_key", "complex", "nested")]
     for a in EAGER:
         for v in ("", "res", "exc", "cb", "cbraise"):
             outs.append(f"eager:{a}:{v}")
@@ -101,6 +103,8 @@ def build_script(cell):
         steps.append({"do": "ok", "ret": {"v": 1}})
     elif o.startswith("raise:"):
         steps.append({"do": "raise", "exc": o.split(":")[1]})
+    elif o.startswith("badret:"):
+        steps.append({"do": "badret", "what": o.split(":")[1]})
     elif o == "timeout":
         steps.append({"do": "ok", "d": 5.0})
     elif o in ("badpayload", "depfail"):
@@ -142,7 +146,7 @@ def classify_step(cell, st, attempt):
         if st.get("d", 0) > 1.0:
             return ("fail", None)  # exceeds the 1 s execution timeout
         return ("ok", None)
-    if st["do"] == "raise":
+    if st["do"] in ("raise", "badret"):
         return ("fail", None)
     action = st["action"]
     if action == "retry" and attempt >= cell["N"]:
@@ -208,6 +212,8 @@ async def scenario(loop, case, out, stats, fps, samples):
         ids = {}
         for i, cell in enumerate(cells):
             cell["_script"] = build_script(cell)
+            if cell["o"].startswith("badret"):
+                stats["cells_with_unencodable_return"] += 1
             id_ = f"c{i:03d}"
             ids[id_] = cell
             name = {"badpayload": "strict", "depfail": "depact"}.get(cell["o"], "guarded" if cell["o"].startswith("depeager") else "act")
